@@ -38,6 +38,18 @@ class SigmaVal:
         self.p = p
 
 
+class FlatVal:
+    """T.reshape(-1) of a tensor value T (kept so that a later .reshape(T.shape) gives T back)"""
+    def __init__(self, tensor):
+        self.tensor = tensor
+
+
+class RitzVal:
+    """second result of eigh_krylov(op, T.reshape(-1), ..): columns are vectors with the structure of T.reshape(-1)"""
+    def __init__(self, tensor):
+        self.tensor = tensor
+
+
 class DiagVal:
     """np.diag(<singular values>)"""
     def __init__(self, sigma):
@@ -214,6 +226,8 @@ class LegInterp:
                 if lo_ is not None and up_ is not None and (up_ - lo_).is_const() and 0 < (up_ - lo_).c <= 4:
                     from .affine import Affine
                     return TupleVal([Opaque(f'{base.text}[{lo_ + Affine.const(k)}]') for k in range(int((up_ - lo_).c))])
+            if isinstance(base, RitzVal):
+                return FlatVal(base.tensor)          # one column: a vector of the local space
             if isinstance(base, ShapeVal):
                 i = _int(e.slice)
                 if i is None or not -len(base.dims) <= i < len(base.dims):
@@ -442,6 +456,13 @@ class LegInterp:
                 return lg.transpose(v, list(perm))
         if isinstance(e.func, ast.Attribute) and e.func.attr == 'reshape':
             v = self.ev(e.func.value)
+            if isinstance(v, TVal) and len(e.args) == 1 and norm(e.args[0]) == '-1':
+                return FlatVal(v)
+            if isinstance(v, FlatVal) and len(e.args) == 1:
+                sh = self.ev(e.args[0])
+                if isinstance(sh, ShapeVal) and sh.dims == [[l.dim for l in ax] for ax in v.tensor.axes]:
+                    return v.tensor          # a vector of the local space back in the shape of the tensor
+                raise LegError(f'`{norm(e)[:60]}`: flattened tensor reshaped to another shape than its own')
             if isinstance(v, TVal):
                 shape = e.args[0] if len(e.args) == 1 else ast.Tuple(elts=list(e.args), ctx=ast.Load())
                 return self.do_reshape(v, shape, e)
@@ -481,6 +502,12 @@ class LegInterp:
             return Scalar(norm(e))
         if f in ('np.array', 'np.identity', 'np.zeros', 'np.ones'):
             return Opaque(norm(e))
+        if f in ('eigh_krylov', 'expm_krylov') and len(e.args) >= 2:
+            # a local problem posed in line: the result vectors have the structure of the start vector (C04.R2)
+            v = self.ev(e.args[1])
+            if isinstance(v, FlatVal):
+                return TupleVal([Opaque('ritz values'), RitzVal(v.tensor)]) if f == 'eigh_krylov' else FlatVal(v.tensor)
+            raise LegError(f'{self.fi.qual}: `{norm(e)[:60]}`: start vector is not a flattened tensor')
         if isinstance(e.func, ast.Name) and e.func.id in self.IDENTITY_STEPS:
             # local evolution / optimisation step: the result has the leg structure of its tensor argument
             # (C04.R2: the output of the local operators can replace their argument)
